@@ -120,8 +120,8 @@ def gen_cases(ctx):
     L = 4 if ctx.quick else 6
     cases = list(family(OPS1, DISK1, L, None, "root+included"))
     cases += list(family(OPS2, DISK2, 3 if ctx.quick else 5, "inc", "three levels + INCLUDE_DIR"))
-    cases += list(family(OPS3, DISK3, 3 if ctx.quick else 5, None, "included document only in the editor (absent on disk)"))
-    for c in family(OPS4, DISK4, 3 if ctx.quick else 5, None, "component-equal include spellings (./ // sub/./)"):
+    cases += list(family(OPS3, DISK3, 3 if ctx.quick else 4, None, "included document only in the editor (absent on disk)"))
+    for c in family(OPS4, DISK4, 3 if ctx.quick else 4, None, "component-equal include spellings (./ // sub/./)"):
         c["no_model"] = True
         cases.append(c)
     nfam = len(cases)
